@@ -1774,6 +1774,11 @@ impl HnswBackend {
                     );
                 }
 
+                // Reject vectors the index would refuse (non-finite, not normalizable) before the
+                // WAL append: compensating a logged insert with a Delete entry would erase the
+                // previous version of an overwritten document on replay.
+                index.validate_embedding(&embedding)?;
+
                 let old_internal_id = store.external_to_internal.get(&doc_id).copied();
                 let old_metadata = old_internal_id.map(|id| store.metadata[id].clone());
                 // Coherence versions only track replacement of the currently
